@@ -1982,6 +1982,11 @@ func streamFacade(g *G) { // C19: the same program through façades (router A) a
 		both := func(fa, fb string) {
 			g.emit("%s", fa)
 			g.emit("%s", fb)
+			if strings.HasPrefix(fa, "fclean") || strings.HasPrefix(fa, "fremove") {
+				// the router-wide method set after the façade call and after its desugaring (OPTIONS *, 405 on *)
+				g.serveLine("serve", a, "OPTIONS", "*", "", nil)
+				g.serveLine("serve", b, "OPTIONS", "*", "", nil)
+			}
 		}
 		wide := ""
 		if g.chance(0.5) { // >= 5 literal siblings (first-byte index) next to parameter children, then façades ending in a token
@@ -2225,6 +2230,26 @@ func streamParams(g *G) { // C20
 func streamIsolation(g *G) { // C07: decoys interleaved with an observed instance
 	// ids >= 1000 are decoys; bin/check runs the stream twice (with and without the decoy lines)
 	rid := 1
+	// method sets are rendered through a process-wide table: what a router answers for `OPTIONS *` after its table SHRANK
+	// must not depend on whether some other router happened to produce the same set by registrations (done first in the
+	// stream, with rare sets, so that nothing else has rendered them yet)
+	for k, set := range [][]string{{"CONNECT", "PATCH"}, {"CONNECT", "DELETE", "PUT"}, {"CONNECT", "PATCH", "POST"}} {
+		ob, dc := 400+k, 1010+k
+		g.routerLine(dc, routerOpt{name: "dset"})
+		for i, m := range set {
+			g.emit("handle %d /d%d 7%d %%- %s", dc, i, i, encL([]string{m}))
+		}
+		g.serveLine("serve", dc, "OPTIONS", "*", "", nil)
+		g.routerLine(ob, routerOpt{name: "oset"})
+		g.emit("handle %d /gone 75 %%- %s", ob, encL([]string{"GET"}))
+		for i, m := range set {
+			g.emit("handle %d /o%d 7%d %%- %s", ob, i, i, encL([]string{m}))
+		}
+		g.emit("remove %d /gone %%-", ob)
+		g.serveLine("serve", ob, "OPTIONS", "*", "", nil)
+		g.serveLine("serve", ob, "GET", "*", "", nil)
+		g.emit("routes %d", ob)
+	}
 	for !g.full() {
 		// distinct Hosts matchers: what one registers must not change how another parses or matches
 		ha, hb := 2000+2*rid, 2001+2*rid
